@@ -12,7 +12,7 @@ from amaranth.hdl import Signal, Shape
 from amaranth.hdl._mem import MemoryData
 
 from . import symsim
-from .pysym import explore, fresh, bool_term, sym_not, is_sym, timed_check, eval_in_model
+from .pysym import explore, fresh, bool_term, sym_not, sym_or, sym_ite, is_sym, timed_check, eval_in_model
 from .run import PROVED, VIOLATION, INCONCLUSIVE, ERROR, UNREPRODUCED
 
 
@@ -39,7 +39,8 @@ def ref_memory_ops(depth, width, signed, rows, a0, writes):
             cur = new[a]
             val = v if m is None else ((v & m) | (cur & ~m))
             new[a] = norm(val) if signed else val
-    return out + new
+    queued = any(0 <= a < depth for (a, v, m) in writes)
+    return out + new + [(int(any(x != y for x, y in zip(new, rows))) if queued else None)]
 
 
 def real_memory_ops(depth, width, signed, rows, a0, writes):
@@ -50,9 +51,10 @@ def real_memory_ops(depth, width, signed, rows, a0, writes):
     out = [real.read(a0)]
     for (a, v, m) in writes:
         real.write(a, v, m)
+    changed = None
     if real.write_queue:
-        real.commit()
-    return out + list(real.data)
+        changed = int(bool(real.commit()))
+    return out + list(real.data) + [changed]
 
 
 def _decide(res, paths, inputs, replay_fn):
@@ -134,13 +136,22 @@ def memory_ops(depth, width, signed):
         real.write_queue = {}
         h.write_queue = []
         pairs = [(real.read(a0), h.read(a0))]
+        changed_real = None
         for st in (real, h):
             st.write(a1, v1, m1)
             st.write(a2, v2, m2)          # a second, partially masked write: may hit the row the first one wrote
             if st.write_queue:
-                st.commit()
+                ch = st.commit()
+                if st is real:
+                    changed_real = ch
         for i in range(depth):
             pairs.append((real.data[i], h.data[i]))
+        # commit() reports whether ANY row changed (the engine keeps iterating delta cycles while it does)
+        if changed_real is not None:
+            any_changed = False
+            for i in range(depth):
+                any_changed = sym_or(any_changed, _neq(h.data[i], rows[i]))
+            pairs.append((1 if changed_real else 0, sym_ite(any_changed, 1, 0)))
         return pairs
 
     def replay_fn(v):
